@@ -12,8 +12,9 @@ mv $DEMO /tmp/_demo_$ID.go
 go test -vet=off -count=1 ./... > /tmp/_suite_$ID.log 2>&1; S=$?; echo "suite_with_change rc=$S ($(grep -c '^ok' /tmp/_suite_$ID.log) packages ok)"; grep "FAIL" /tmp/_suite_$ID.log | head -3
 mv /tmp/_demo_$ID.go $DEMO
 go test -vet=off -count=1 -run 'Seeded' $PKG > /tmp/_demo1_$ID.log 2>&1; echo "demo_with_change rc=$? (want !=0)"
-git diff > /tmp/_patch_$ID.diff
-git checkout -- .
+git add -N -- . ':!seeded_out' ':!*zz_seeded_demo_test.go' 2>/dev/null   # new source files belong to the change
+git diff -- . ':!*zz_seeded_demo_test.go' > /tmp/_patch_$ID.diff
+git apply -R /tmp/_patch_$ID.diff
 go test -vet=off -count=1 -run 'Seeded' $PKG > /tmp/_demo2_$ID.log 2>&1; echo "demo_without_change rc=$? (want 0)"
 git apply /tmp/_patch_$ID.diff
 mv /tmp/_so_$ID seeded_out
